@@ -767,7 +767,18 @@ class StructMeta(type):
                 clsobj._constants[fname] = getattr(clsobj, fname)._val
 
         required = cls_dict.get(REQUIRED_FIELDS, default_required)
-        setattr(clsobj, REQUIRED_FIELDS, list(set(bases_required + required)))
+        # a Constant is not a constructor parameter, so the signatures of the bases do not carry it:
+        # one that a base lists in its _required (and that is still a Constant here) stays required
+        inherited_required_constants = [
+            fname
+            for fname in clsobj._constants
+            if any(fname in getattr(base, REQUIRED_FIELDS, []) for base in bases)
+        ]
+        setattr(
+            clsobj,
+            REQUIRED_FIELDS,
+            list(set(bases_required + required + inherited_required_constants)),
+        )
         optional_fields = cls_dict.get(OPTIONAL_FIELDS, [])
         for f in optional_fields:
             if f in required or f in bases_required:
